@@ -1,5 +1,7 @@
 import Scion.Model.Seq
 import Scion.Proofs.Rx
+import Scion.Proofs.SeqCompile
+import Scion.Gen.PathSeq
 /-!
 # C47 — Path-policy sequences match exactly the paths their expression describes
 
@@ -275,20 +277,92 @@ theorem policyFilter_spec (a : ACL) (hv : a = [] ∨ validACL a = true) (hw : AC
   intro p
   simp [List.mem_filter]
 
-/-! ## The compiled regular expression (stated; tied by T1, not yet proved)
+/-! ## The compiled regular expression
 
 The listener compiles the expression to a regular expression over characters which `Eval`
-matches against the textual hop list.  `compile`/`render` model both; the engine compares the
-real answers with `seqAcceptRe` on every case.  The correctness statement of the compilation
-needs interface/ISD/AS values the text distinguishes (AS numbers below 2^48). -/
+matches against the textual hop list.  `compile`/`render` model both (the engine compares the
+real answers with `seqAcceptRe` on every case). -/
 
-def HopInRange (h : Hop) : Prop := h.as < 2 ^ 48
+/-- what the parser's output satisfies: AS literals are AS numbers -/
+theorem asPredOfText_WF (t : Scion.Addr.Str) : (asPredOfText t).WF := by
+  unfold asPredOfText
+  cases h : Scion.Addr.parseAS [':'] t with
+  | ok v => exact Scion.Addr.parseAS_lt _ _ _ h
+  | error e => trivial
 
-/-- full statement: on every hop list with AS numbers in range the compiled regular expression
-    accepts the text iff the expression accepts the hop list -/
-def compile_correct : Prop :=
-  ∀ (e : Expr) (hs : List Hop), (∀ h ∈ hs, HopInRange h) →
-    (compile e).accepts (render hs) = e.accepts hs
+/-- **compile_correct**: on every hop list (AS numbers below 2^48) the compiled regular
+    expression accepts the text `isd-as#in,out isd-as#in,out … ` iff the expression accepts the
+    hop list.  Hypothesis on the expression: its AS literals are AS numbers (`asPredOfText_WF`:
+    always the case for literals normalised by `addr.ParseAS`; a literal that `ParseAS` rejects
+    is `ASPred.bad`, which the model compiles to the empty language). -/
+theorem compile_correct (e : Expr) (he : ExprWF e) (hs : List Hop)
+    (hh : ∀ h ∈ hs, h.as < 2 ^ 48) :
+    (compile e).accepts (render hs) = e.accepts hs := by
+  apply Bool.eq_iff_iff.2
+  unfold Re.accepts Expr.accepts
+  rw [Rx.accepts_iff_lang, Rx.accepts_iff_lang]
+  exact compile_correct_lang e he hs hh
+
+theorem midHops_as : ∀ (p : List PIf) (hs : List Hop), midHops p = some hs →
+    ∀ h ∈ hs, ∃ i ∈ p, h.as = i.as
+  | [], hs, h => by simp [midHops] at h
+  | [l], hs, h => by
+    simp only [midHops, Option.some.injEq] at h
+    subst h
+    intro x hx
+    simp only [List.mem_singleton] at hx
+    subst hx
+    exact ⟨l, by simp, rfl⟩
+  | a :: b :: rest, hs, h => by
+    simp only [midHops] at h
+    cases hr : midHops rest with
+    | none => simp [hr] at h
+    | some hs' =>
+      simp only [hr, Option.some.injEq] at h
+      subst h
+      intro x hx
+      simp only [List.mem_cons] at hx
+      rcases hx with rfl | hx
+      · exact ⟨a, by simp, rfl⟩
+      · obtain ⟨i, hi, e⟩ := midHops_as rest hs' hr x hx
+        exact ⟨i, by simp [hi], e⟩
+
+theorem hopsOf_as (p : Path) (hs : List Hop) (h : hopsOf p = some hs) :
+    ∀ x ∈ hs, ∃ i ∈ p, x.as = i.as := by
+  cases p with
+  | nil =>
+    simp only [hopsOf, Option.some.injEq] at h
+    subst h; simp
+  | cons f rest =>
+    simp only [hopsOf] at h
+    cases hr : midHops rest with
+    | none => simp [hr] at h
+    | some hs' =>
+      simp only [hr, Option.some.injEq] at h
+      subst h
+      intro x hx
+      simp only [List.mem_cons] at hx
+      rcases hx with rfl | hx
+      · exact ⟨f, by simp, rfl⟩
+      · obtain ⟨i, hi, e⟩ := midHops_as rest hs' hr x hx
+        exact ⟨i, by simp [hi], e⟩
+
+/-- `Sequence.Eval` as the code computes it (regular expression against text) keeps exactly the
+    paths whose hop list is in the language of the expression -/
+theorem seqAcceptRe_eq (s : Option Expr) (hs : ∀ e, s = some e → ExprWF e) (p : Path)
+    (hp : ∀ i ∈ p, i.as < 2 ^ 48) : seqAcceptRe s p = seqAccept s p := by
+  cases s with
+  | none => rfl
+  | some e =>
+    simp only [seqAcceptRe, seqAccept]
+    cases h : hopsOf p with
+    | none => rfl
+    | some hl =>
+      simp only
+      apply compile_correct e (hs e rfl) hl
+      intro x hx
+      obtain ⟨i, hi, e'⟩ := hopsOf_as p hl h x hx
+      rw [e']; exact hp i hi
 
 /-! ## Non-vacuity -/
 
@@ -307,6 +381,10 @@ example : hopsOf pth = some [⟨1, 5, 0, 7⟩, ⟨1, ia110, 2, 3⟩, ⟨2, 9, 4,
 example : seqAccept (some e1) pth = true ∧ seqAcceptRe (some e1) pth = true := by decide
 example : seqAccept (some (.atom hop1)) pth = false ∧ seqAcceptRe (some (.atom hop1)) pth = false := by
   decide
+example : ExprWF e1 := by
+  intro p hp
+  simp only [e1, Rx.atoms, List.mem_append, List.mem_singleton] at hp
+  rcases hp with rfl | rfl | rfl <;> simp [HopPred.WF, ASPred.WF, anyHop, hop1, ia110]
 example : render [⟨1, ia110, 2, 3⟩] = "1-ff00:0:110#2,3 ".toList := by decide
 def acl1 : ACL := [⟨false, some ⟨1, 5, 7, none⟩⟩, ⟨true, some ⟨0, 0, 0, none⟩⟩]
 example : validACL acl1 = true ∧ aclAccept acl1 pth = false ∧ aclAccept acl1 (pth.drop 1) = true := by
@@ -318,3 +396,30 @@ example : ACLWF acl1 := by
 end Examples
 
 end Scion.C47
+
+/-! The shapes the listener pastes together, regenerated from `sequence.go` (T3), are the ones
+`Scion.Seq.compile`, `hopRe`, `asRe`, `hopText` were written for: `?`, `+`, `*` wrap the operand in
+a group; `|` and juxtaposition are grouped as a whole; a hop is `isd-as#in,out` followed by
+` +`; `#if` is `(any,if)|(if,any)`; the three wildcards; the whole expression is anchored; AS
+literals go through `normalizeAS` (the repaired defect). -/
+namespace Scion.C47
+open Scion.Gen.PathSeq in
+theorem gen_listener :
+    isdWildcard = "([0-9]+)" ∧ ifWildcard = "([0-9]+)" ∧
+    asWildcard = "(([0-9]+)|([0-9a-fA-F]+:[0-9a-fA-F]+:[0-9a-fA-F]+))" ∧
+    sequenceListener_ExitQuestionMark = ["(%s)?|l.pop()"] ∧
+    sequenceListener_ExitPlus = ["(%s)+|l.pop()"] ∧
+    sequenceListener_ExitAsterisk = ["(%s)*|l.pop()"] ∧
+    sequenceListener_ExitOr = ["(%s|%s)|left,right"] ∧
+    sequenceListener_ExitConcatenation = ["(%s%s)|left,right"] ∧
+    sequenceListener_ExitParentheses = [] ∧
+    sequenceListener_ExitHop = ["(%s +)|l.pop()"] ∧
+    sequenceListener_ExitISDHop = ["(%s-%s#%s,%s)|isd,asWildcard,ifWildcard,ifWildcard"] ∧
+    sequenceListener_ExitISDASHop = ["(%s-%s#%s,%s)|isd,as,ifWildcard,ifWildcard"] ∧
+    sequenceListener_ExitISDASIFHop =
+      ["(%s-%s#((%s,%s)|(%s,%s)))|isd,as,ifWildcard,iface,iface,ifWildcard"] ∧
+    sequenceListener_ExitISDASIFIFHop = ["(%s-%s#%s,%s)|isd,as,ifin,ifout"] ∧
+    NewSequence = ["^%s$|listener.stack[0]"] ∧ hop = ["%s#%d,%d|ia,ingress,egress"] ∧
+    ExitAS_normalizes = true ∧ ExitLegacyAS_normalizes = true := by decide
+end Scion.C47
+
